@@ -3,6 +3,7 @@
 from __future__ import annotations
 
 import ast
+import re
 
 from ..astutil import attr_chain, call_attr, calls_in, guard_facts, unparse, walk_local
 from ..cfg import CFG
@@ -82,7 +83,26 @@ def _resolver(fn: ast.FunctionDef, cfg: CFG):
     return R
 
 
-def _field_evidence(fn: ast.FunctionDef, field: str, kind: str, cfg: CFG | None = None, s: str | None = None, o: str | None = None):
+def _prop_tuples(cls) -> dict[str, list[str]]:
+    """property name -> texts of the elements of the tuple it returns (locals resolved): `self._key == other._key`
+    then compares every listed element."""
+    out: dict[str, list[str]] = {}
+    if cls is None:
+        return out
+    for nm, defs in cls.methods.items():
+        for d in defs:
+            if not any(x.endswith("property") for x in d.decorator_names()):
+                continue
+            g = d.raw_node
+            rets = [x for x in walk_local(g) if isinstance(x, ast.Return) and x.value is not None]
+            if len(rets) != 1 or not isinstance(rets[0].value, ast.Tuple):
+                continue
+            c_ = CFG(g)
+            out[nm] = [resolved_text(c_, e_, c_.node_of(rets[0])) for e_ in rets[0].value.elts]
+    return out
+
+
+def _field_evidence(fn: ast.FunctionDef, field: str, kind: str, cfg: CFG | None = None, s: str | None = None, o: str | None = None, props: dict[str, list[str]] | None = None):
     """Returns (len_nodes, elem_nodes, direct_nodes): AST nodes that constitute a discriminating
     comparison of `self.<field>` with `other.<field>`."""
     s, o = s or f"self.{field}", o or f"other.{field}"
@@ -99,6 +119,9 @@ def _field_evidence(fn: ast.FunctionDef, field: str, kind: str, cfg: CFG | None 
                 elem_nodes.append(n)
             if {l, r} == {s, o}:
                 direct_nodes.append(n)
+            for pn, elems in (props or {}).items():
+                if {l, r} == {f"self.{pn}", f"other.{pn}"} and s in elems:
+                    direct_nodes.append(n)
             if {l, r} == {f"len({s})", f"len({o})"}:
                 len_nodes.append(n)
             if kind == "seq-types" and field == "results" and {l, r} == {"self.result_types", "other.result_types"}:
@@ -276,7 +299,7 @@ def _check_fields(idx: Index, rep_rule, qual: str, fields: dict[str, str], modul
     for field, kind in fields.items():
         inst = f"{f.fq}:{field}"
         se, oe = (exprs or {}).get(field, (None, None))
-        ln, el, dr = _field_evidence(fn, field, kind, cfg, se, oe)
+        ln, el, dr = _field_evidence(fn, field, kind, cfg, se, oe, _prop_tuples(f.cls))
         ln = [n for n in ln if isinstance(n, ast.Call) or _rejecting(fn, cfg, n)]
         el = [n for n in el if _rejecting(fn, cfg, n)]
         dr = [n for n in dr if _rejecting(fn, cfg, n)]
@@ -287,6 +310,20 @@ def _check_fields(idx: Index, rep_rule, qual: str, fields: dict[str, str], modul
             need = [("length", ln + dr), ("elements", el + dr)]
         for what, nodes in need:
             if not nodes:
+                # comparisons of members this rule does not know (`self._key == other._key`, helper predicates taking
+                # both sides) may well cover the field: undecided rather than "not compared"
+                known_members = {fld for fld in fields} | {e_[0].split(".", 1)[1] for e_ in (exprs or {}).values()}
+                opaque = []
+                for n_ in walk_local(fn):
+                    if isinstance(n_, ast.Compare) and len(n_.ops) == 1 and isinstance(n_.ops[0], (ast.Eq, ast.NotEq)):
+                        l_, r_ = unparse(n_.left), unparse(n_.comparators[0])
+                        m1, m2 = re.fullmatch(r"(self|other)\.([\w.]+)", l_), re.fullmatch(r"(self|other)\.([\w.]+)", r_)
+                        if m1 and m2 and m1.group(1) != m2.group(1) and m1.group(2) == m2.group(2) and m1.group(2) not in known_members and m1.group(2).split(".")[-1] not in known_members and m1.group(2).split(".")[-1].startswith("_"):
+                            opaque.append(unparse(n_))
+                    if isinstance(n_, ast.Call) and isinstance(n_.func, ast.Attribute) and unparse(n_.func.value) == "self" and n_.func.attr.startswith("_") and any(unparse(a_) == "other" for a_ in n_.args):
+                        opaque.append(unparse(n_))
+                if opaque:
+                    raise AnalysisError(f"{f.fq}: `{field}` is not compared directly, but the function compares members this rule does not look into: {opaque[:2]}")
                 if what == "compare":
                     problems.append((f"{field}-not-compared", f"`self.{field}` is never compared with `other.{field}` by a rejecting ==/!= test"))
                 elif what == "length":
